@@ -255,12 +255,16 @@ two steps is accepted); the command loop still leaves on `stopping`; `ServerHand
 sends its command before building the future; the `None` arm of the worker's `Available` loop
 looks at the `Stop` channel again instead of ending the worker (F8, `Worker.closedArm`); and the command
 stream hands on what the command channel yields and closes that channel nowhere (a command sent while a
-`Stop` is being handled stays in the channel until `run` returns, `later_stop_answered_at_completion`). -/
+`Stop` is being handled stays in the channel until `run` returns, `later_stop_answered_at_completion`);
+`ServerHandle::stop` discards the result of its send at once, an undelivered command with it
+(`stop_after_completion_resolves`); and the join the graceful `Stop` awaits is the crate's own `join_all`, which
+is ready only when no future is pending, whatever the others yielded — a dead worker's stop receiver yields
+`Err` at once and the live workers are still waited for (`awaitWorker w` for every `w`, `graceful_waits_server`). -/
 theorem source_shape (workers : List Nat) (g : Bool) (comp : Option Nat) :
     stopEvs srcWakeFirst workers g comp = Src.hcStopOrder.flatMap (stepEvs workers g comp Src.hcAwaitGuard) ∧
     Src.srRunBreaksOnStopping = true ∧ Src.hsStopSendsEagerly = true ∧ Src.wkNoneArmPollsStop = true ∧
-    Src.smMuxHandsOnCmdRx = true := by
-  refine ⟨?_, rfl, rfl, rfl, rfl⟩
+    Src.smMuxHandsOnCmdRx = true ∧ Src.hsStopDropsUndelivered = true ∧ Src.jaWaitsForAll = true := by
+  refine ⟨?_, rfl, rfl, rfl, rfl, rfl, rfl⟩
   first
     | (have hw : srcWakeFirst = true := by decide
        rw [hw]; simp [stopEvs, stepEvs, Src.hcStopOrder, Src.hcAwaitGuard, List.flatMap])
@@ -385,6 +389,14 @@ theorem later_stop_answered_at_completion (s : St) (pre post : List Cmd) (g : Bo
 
 example : (serve true 1 [.stop true, .stop true, .stop false]).log =
     [.wake .stop, .stopWorker 0 true, .awaitWorker 0, .joinAccept, .ack 0, .ackDropped 1, .ackDropped 2, .returned] := by decide
+
+/-- **A stop called after the shutdown has completed resolves at once**: nobody takes the command any more; the
+handle drops the undelivered command, and with it the ack sender its future waits for. -/
+theorem stop_after_completion_resolves (y : Sys) (g : Bool) :
+    lateCall y (.stop g) = [.ackDropped y.nextAck] ∧ (call y (.stop g)).2 = some y.nextAck ∧
+    Src.hsStopDropsUndelivered = true := by
+  refine ⟨?_, rfl, rfl⟩
+  simp [lateCall, call, droppedAcks, Cmd.ack?]
 
 /-- **A dropped stop future still stops the server**: `ServerHandle::stop` puts the command into the
 channel when it is *called*; the returned future only waits for the ack.  Whatever other calls are
